@@ -1,5 +1,12 @@
         // ---- spec side for asm::resolver (U-resolver)
 
+        impl asm::ItemDefs {
+            /// ghost event marker (C02): "the definitions were last touched by a pass in which guessing was
+            /// forbidden and which answered Resolved".  Its only producer is resolve_once's clause [confirms];
+            /// every other `&mut ItemDefs` callee leaves it unspecified (havoc).
+            pub uninterp spec fn confirmed(&self) -> bool;
+        }
+
         /// the bank a context points into exists and is defined
         pub open spec fn bank_ok(defs: &asm::ItemDefs, bank_ref: util::ItemRef<asm::Bankdef>) -> bool {
             bank_ref.0 < defs.bankdefs.defs@.len() && defs.bankdefs.defs@[bank_ref.0 as int] is Some
